@@ -635,9 +635,15 @@ def main():
         for src, expect, kind, extra in probes:
             with open(os.path.join(wd, "m.mpt"), "w") as fh:
                 fh.write(src)
-            with open(os.path.join(wd, "data.csv"), "w") as fh:
-                fh.write(extra.get("csv", base_csv))
+            def fresh_inputs():
+                # both runs start from the same input files (a model may overwrite the table it reads)
+                with open(os.path.join(wd, "d.csv"), "w") as fh2:
+                    fh2.write(base_csv)
+                with open(os.path.join(wd, "data.csv"), "w") as fh2:
+                    fh2.write(extra.get("csv", base_csv))
+            fresh_inputs()
             obs = observe(src, wd)
+            fresh_inputs()
             pr = subprocess.run([sys.executable, "-c", "import sys; sys.argv=['mpilot','eems-csv',%r]; from mpilot.cli.mpilot import main; main()" % os.path.join(wd, "m.mpt")],
                                 cwd=wd, env=env, stdout=subprocess.PIPE, stderr=subprocess.PIPE, universal_newlines=True)
             dist["cli_runs"] += 1
